@@ -74,6 +74,11 @@ CHECKS = {
    text="For every K in 1..56403, every u32 start s and window length n<=3 with K+s+n<=2^24: packet i carries (sbn, K+s+i) and Enc of Tuple[K', K'+s+i] computed with K's parameters, ids strictly increase, nothing panics, the last id 2^24-1 is producible and ids >= 2^24 are refused; packet i of a window has exactly the arguments of the single request s+i (payload callees are pure: checked syntactically), so overlapping windows agree; source packet i is (sbn, i, source symbol i); the per-object list is, block by block, source packets then repair_packets(0,r); with_encoding_plan accepts a plan iff it was generated for the same symbol count. Both overflow-check settings. Concrete: windows vs singles near both ends of the ESI range, id 2^24 refused, two generated plans equal.",
    note="K', W, J, P1 are uninterpreted functions of K here (C15 covers them); payload equality is inferred from argument equality; Vec/iterator operations are hand models; windows longer than 3 are outside the symbolic part.",
    design="§4 C18"),
+ "C16": dict(level="model_checking", engine="E1 kani/cbmc",
+   technique="Kani (CBMC) one-step harnesses over the real DenseBinaryMatrix: an arbitrary representable state (all word contents symbolic), one interface operation with symbolic admissible arguments, post-state compared cell by cell through a symbolic probe with the abstract operation on the pre-state",
+   text="DENSE HALF ONLY. For shapes 3x66, 2x64 (+1 spare word) and 3x130: new/get/set/swap_rows/resize, and for 3x66 also swap_columns (with hint), add_assign_rows (start_col respected as 'undefined left of it'), count_ones and get_row_iter over arbitrary ranges, all equal the plain two-dimensional bit array semantics from ANY word contents; since every word pattern of the right length is a reachable-or-not-but-valid state and each operation maps abstract pre-state to abstract post-state, sequences of any length follow by induction.",
+   note="The SPARSE representation (SparseBinaryMatrix, SparseBinaryVec, column index, dense tail) is NOT covered: no CBMC verdict for three sets and two operations in 25 min and no way to construct an arbitrary valid symbolic state of it within reach; get_sub_row_as_octets / query_non_zero_columns / get_ones_in_column (Vec-building queries) are not covered in quick; shapes are small.",
+   design="§4 C16"),
 }
 
 NOT_APPLICABLE = {
